@@ -51,7 +51,9 @@ GInitSt(d) == [acc |-> [i \in {x.id : x \in GLeaves(d)} |-> <<>>], pos |-> <<>>,
                \* the line left what the specification makes a statement about (see Wide)
                out |-> FALSE,
                \* an adjacent subcommand with fallback_to_usage that found nothing to work on printed its usage (its field)
-               usage |-> 0]
+               usage |-> 0,
+               \* starts of a block under a word tag that did not work out (see Close)
+               litfail |-> 0]
 
 GKill(gs, why) == [gs EXCEPT !.dead = IF @ = "" THEN why ELSE @]
 FilledIds(gs)  == {gs.open.filled[i].id : i \in DOMAIN gs.open.filled}
@@ -74,9 +76,18 @@ BlockBad(d, gs) ==
         m.id = gs.open.filled[i].id /\ m.kind = "arg" /\ BadValue(m, gs.open.filled[i].v)
   \/ \E j \in DOMAIN gs.open.words : ConvBad(PosMembers(g)[j].vt, gs.open.words[j]) \/ LitBad(PosMembers(g)[j], gs.open.words[j])
 \* `cut` remembers the first adjacent subcommand whose block cannot stand (cut short, or holding an invalid value)
+\* A block under a WORD tag that cannot stand is not a failure by itself: bpaf goes on to the next place where the tag
+\* stands, and the tag and the words after it are plain words again.  It is one when no later start works out for a group
+\* that is looked for once, or whenever the group is looked for again (a repetition) - see LitFailed.
 Close(d, gs) ==
   IF gs.open.k = 0 THEN gs
   ELSE LET cmdk == IF d.named[gs.open.k].head.kind = "cmd" THEN gs.open.k ELSE 0 IN
+       IF d.named[gs.open.k].head.kind = "lit" /\ gs.open.filled = <<>> /\ (~Complete(d, gs) \/ BlockBad(d, gs))
+       THEN LET ws == <<d.named[gs.open.k].head.lit>> \o gs.open.words
+                back == [j \in DOMAIN ws |-> [w |-> ws[j], after |-> FALSE, p |-> gs.open.p + j - 1]] IN
+            IF d.tail.kind = "pos" THEN [gs EXCEPT !.open = NoOpen, !.pos = @ \o back, !.litfail = @ + 1]
+            ELSE [GKill(gs, "unexpected") EXCEPT !.open = NoOpen, !.litfail = @ + 1]
+       ELSE
        IF Complete(d, gs)
        THEN [gs EXCEPT !.blocks[gs.open.k] = Append(@, [filled |-> gs.open.filled, words |-> gs.open.words, p |-> gs.open.p]),
                        !.open = NoOpen,
@@ -412,6 +423,9 @@ JoinedVal(d, gs, k) ==
   ELSE IF d.named[k].arity = "some" /\ all = {} THEN [ok |-> FALSE, why |-> [k |-> "missing", id |-> d.named[k].id]]
   ELSE [ok |-> TRUE, v |-> [n \in DOMAIN sorted |-> [v |-> Cardinality({x \in J : x < sorted[n][1]}), x |-> BV(sorted[n]).v]]]
 
+\* a start under a word tag that did not work out fails the run when the group found no place at all, or is looked for again
+LitFailed(d, gs) == gs.litfail > 0 /\ \E k \in AdjFields(d) :
+                       d.named[k].head.kind = "lit" /\ (d.named[k].arity \in {"many", "some"} \/ gs.blocks[k] = <<>>)
 \* `toggle_flag`: a repeated choice between two required flags of which the last one given decides
 Toggle(f, r) == IF "battery" \in DOMAIN f /\ f.battery.k = "toggle" /\ r.ok
                 THEN [r EXCEPT !.v = IF @ = <<>> THEN "NONE" ELSE [some |-> @[Len(@)]]] ELSE r
@@ -432,7 +446,8 @@ GFinish(d, gs0, envv) ==
         Shown == {k \in DOMAIN fv : ~IsJoined(d.named[k]) \/ k = MinOf(JoinedSet(d, k))}
         \* words a positional branch of a choice took are gone (at most one choice of a level has such a branch)
         PA == {k \in DOMAIN d.named : HasPosBranch(d.named[k])} IN
-    IF bad # {} THEN [class |-> "stderr", why |-> fv[MinOf(bad)].why]
+    IF LitFailed(d, gs) THEN [class |-> "stderr", why |-> [k |-> "block_cut"]]
+    ELSE IF bad # {} THEN [class |-> "stderr", why |-> fv[MinOf(bad)].why]
     ELSE LET shown == SetToSortSeq(Shown, LAMBDA a, b : a < b)
              base == [n \in DOMAIN shown |-> fv[shown[n]].v]
              rest == IF PA = {} THEN gs.pos ELSE fv[MinOf(PA)].pool IN
@@ -487,7 +502,8 @@ AdjContiguous == [][/\ \A k \in DOMAIN st.blocks : IsPrefix(st.blocks[k], st'.bl
                           (Len(st'.open.filled) + Len(st'.open.words) = Len(st.open.filled) + Len(st.open.words) + 1
                            \/ st'.pending # "")]_vars
 CutKills == [][(st.open.k # 0 /\ (st'.open.k # st.open.k \/ st'.open.p # st.open.p))
-                => (Len(st'.blocks[st.open.k]) = Len(st.blocks[st.open.k]) + 1 \/ st'.dead # "" \/ st'.usage # 0)]_vars
+                => (Len(st'.blocks[st.open.k]) = Len(st.blocks[st.open.k]) + 1 \/ st'.dead # "" \/ st'.usage # 0
+                    \/ st'.litfail > st.litfail)]_vars
 GNoResurrection == [][st.dead # "" => GOutcome(def, st', env).class # "ok"]_vars
 (* ------------------------------------------------------------------ C03 on choices *)
 \* exchanging two neighbouring single-item occurrences of different named items - plain options or
